@@ -72,7 +72,9 @@ pub struct Share {
     pub len: usize,
     pub dir: Dir,
     pub ap: bool,
-    pub bounce: Vec<u8>,
+    /// Some: the device only sees this bounce copy; None: the device address maps directly onto
+    /// the caller's buffer (in-place sharing, e.g. identity-mapped platforms).
+    pub bounce: Option<Vec<u8>>,
     pub seq: u64,
     /// Set while a chain that references this share is in flight on a queue (published, not yet
     /// completed by the device).
@@ -147,6 +149,8 @@ pub struct HalState {
     /// DMA memory the device currently relies on (e.g. GPU resource backing): start -> (len, why).
     pub pinned: BTreeMap<u64, (u64, &'static str)>,
     pub pin_check: bool,
+    /// false: buffers are shared in place (no bounce copy)
+    pub bounce: bool,
     /// Base for the fake MMIO virtual window handed out by `mmio_phys_to_virt`.
     pub mmio_virt_of: Option<fn(u64, usize) -> usize>,
 }
@@ -172,6 +176,7 @@ impl HalState {
             mmio_maps: Vec::new(),
             pinned: BTreeMap::new(),
             pin_check: true,
+            bounce: true,
             mmio_virt_of: None,
         }
     }
@@ -227,7 +232,11 @@ impl HalState {
         }
         if let Some(s) = self.find_share(paddr, len) {
             let off = (paddr - s.paddr) as usize;
-            out.copy_from_slice(&s.bounce[off..off + len]);
+            match &s.bounce {
+                Some(b) => out.copy_from_slice(&b[off..off + len]),
+                // SAFETY: the caller of `add` guarantees the buffer stays valid while shared.
+                None => unsafe { std::ptr::copy_nonoverlapping((s.ptr + off) as *const u8, out.as_mut_ptr(), len) },
+            }
             return Ok(());
         }
         Err(MemFault {
@@ -274,7 +283,11 @@ impl HalState {
                 });
             }
             let off = (paddr - s.paddr) as usize;
-            s.bounce[off..off + len].copy_from_slice(data);
+            match &mut s.bounce {
+                Some(b) => b[off..off + len].copy_from_slice(data),
+                // SAFETY: as above.
+                None => unsafe { std::ptr::copy_nonoverlapping(data.as_ptr(), (s.ptr + off) as *mut u8, len) },
+            }
             s.dev_wrote = true;
             return Ok(());
         }
